@@ -41,7 +41,7 @@ TRUSTED = [
 ]
 RULE = ("random Hermitian System_R objects built from the repository's own classes: num_wann 1-7 (odd and even), "
         "1-20 R-vectors in random order (R=0 anywhere), random lattices, centres with components below the 1e-7 "
-        "clip, with/without AA (and BB/CC/SS for npz), point groups from generator names; files with Ndegen != 1; "
+        "clip, with/without AA (and BB/CC/SS for npz), whole R blocks of single matrices identically zero (Ham(R)=0 with AA(R)!=0 and vice versa), point groups from generator names; files with Ndegen != 1; "
         "all reader/writer option combinations; non-trivial = num_wann odd or >= 2 R-vectors; "
         "distinct = distinct (format, sizes, options, seed)")
 
@@ -80,7 +80,7 @@ def rand_Rs(rng, nR):
     return Rs
 
 
-def rand_mats(rng, nprng, nw, Rs, keys, value):
+def rand_mats(rng, nprng, nw, Rs, keys, value, zero_blocks=0.0):
     """Hermitian matrices X(-R) = X(R)^dagger where -R is present; `value(shape)` draws the real numbers"""
     idx = {R: i for i, R in enumerate(Rs)}
     out = {}
@@ -98,6 +98,16 @@ def rand_mats(rng, nprng, nw, Rs, keys, value):
         if key == "AA":
             Y[idx[(0, 0, 0)], np.arange(nw), np.arange(nw)] = 0
         out[key] = Y
+    if zero_blocks:
+        # structured sparsity: whole R blocks of single matrices vanish identically (short-ranged hopping with
+        # longer-ranged position elements, R lists merged from several matrices, ...), +-R together
+        for key in keys:
+            for R, i in idx.items():
+                if R != (0, 0, 0) and rng.random() < zero_blocks:
+                    out[key][i] = 0
+                    mR = tuple(-x for x in R)
+                    if mR in idx:
+                        out[key][idx[mR]] = 0
     return out
 
 
@@ -251,7 +261,8 @@ def corr(ctx):
         exact = rng.random() < 0.5
         value = dyadic(nprng) if exact else uniform(nprng)
         hasAA = rng.random() < 0.7
-        mats = rand_mats(rng, nprng, nw, Rs, ["Ham", "AA"] if hasAA else ["Ham"], value)
+        mats = rand_mats(rng, nprng, nw, Rs, ["Ham", "AA"] if hasAA else ["Ham"], value,
+                         zero_blocks=rng.choice([0.0, 0.0, 0.4]))
         s = make_system(nw, Rs, L, wcc, mats)
         seed = os.path.join(work, f"c{it}")
         case = dict(num_wann=nw, iRvec=Rs, exact_values=exact, hasAA=hasAA)
@@ -526,7 +537,12 @@ def oracle(ctx, scale):
         wcc = rand_wcc(rng, nprng, nw)
         hasAA = rng.random() < 0.65
         extra = rng.sample(["BB", "CC", "SS"], rng.randint(0, 2)) if hasAA else []
-        mats = rand_mats(rng, nprng, nw, Rs, ["Ham"] + (["AA"] if hasAA else []) + extra, uniform(nprng, 2.0))
+        zb = rng.choice([0.0, 0.35, 0.7]) if nR > 1 else 0.0
+        mats = rand_mats(rng, nprng, nw, Rs, ["Ham"] + (["AA"] if hasAA else []) + extra, uniform(nprng, 2.0), zero_blocks=zb)
+        nzero = {k: int(sum(1 for i in range(nR) if not np.any(v[i]))) for k, v in mats.items()}
+        ctx.count(f"oracle.zero_blocks={'none' if not any(nzero.values()) else 'some'}")
+        if hasAA and any((not np.any(mats['Ham'][i])) and np.any(mats['AA'][i]) for i in range(nR)):
+            ctx.count("oracle.R_with_Ham=0_AA!=0")
         gens = rng.choice(groups[kind])
         case = dict(num_wann=nw, nRvec=nR, iRvec=Rs, lattice=L, centres=wcc, matrices=sorted(mats), generators=gens,
                     seed_case=it)
